@@ -591,7 +591,7 @@ def c21_file(wd, values):
             shape = "absent-file"
         elif not fl:
             shape = "empty-file"
-        elif any(fl == encs[k].get("hard_state.bin") or fl == encs[k].get("hard_state.tmp") for k in encs):
+        elif any(fl == d_ for k in encs for d_ in encs[k].values()):
             shape = "complete-record"
         else:
             shape = "partial-record"
@@ -803,9 +803,16 @@ def check_c18(tier):
     c2["Emit"] = "FALSE"
     dv.write_cfg(cfg2, constants=c2, invariants=["TypeOK"] + C18_INV)
     pred = dv.tlc_mc("BufLogIO", cfg2, wd, workers=6, timeout=1500)
-    # graph of the as-implemented model -> real code
+    # graph of the as-implemented model -> real code; if the code no longer behaves like the as-implemented model
+    # (e.g. the deviations were repaired), bind it to the repaired model instead
+    bound_dev = C18_AS_IMPL
     gpath, ns, ne, st = tlc_graph("BufLogIO", wd, c18_consts(T, C18_AS_IMPL), ["TypeOK"], name="buflogio-graph")
     gated = run_crashlog(wd, gpath, T, "gated")
+    if any(f["kind"] == "divergence" for f in gated["findings"]):
+        gpath2, ns2, ne2, st2 = tlc_graph("BufLogIO", wd, c18_consts(T, []), ["TypeOK"], name="buflogio-graph-repaired")
+        gated2 = run_crashlog(wd, gpath2, T, "gated")
+        if not any(f["kind"] == "divergence" for f in gated2["findings"]):
+            bound_dev, gpath, ns, ne, st, gated = [], gpath2, ns2, ne2, st2, gated2
     filer = run_crashlog(wd, gpath, T, "file", ["--sample", str(T["file_sample"])])
     rocks = run_crashlog(wd, gpath, T, "rocksdb", ["--sample", str(T["rocksdb_sample"])])
     allf = gated["findings"] + filer["findings"] + rocks["findings"]
@@ -863,7 +870,8 @@ def check_c18(tier):
         "bounds": {k: T[k] for k in ("MaxIdx", "MaxTerm", "MaxOps")},
         "model_checking": {"repaired_design": {"Dev": [], "distinct_states": mc["distinct"], "generated": mc["generated"],
                                                "invariants": C18_INV, "ok": True, "secs": mc["secs"]},
-                           "as_implemented": {"Dev": C18_AS_IMPL, "violated": pred["violated"]}},
+                           "as_implemented": {"Dev": C18_AS_IMPL, "violated": pred["violated"]},
+                           "real_code_bound_to_Dev": bound_dev},
         "graph_states": ns, "graph_edges": ne,
         "gated": {k: gated[k] for k in ("total_paths", "paths", "states_visited", "crash_checks", "gate_calls")},
         "file": {k: filer[k] for k in ("total_paths", "paths", "crash_checks")},
